@@ -733,7 +733,10 @@ func (w *world) genOp(c *cClient, kind string) *opSpec {
 		}
 		o := pick(w, "owner", free)
 		op := &opSpec{Kind: kOpen, ClientID: c.useCID(), FH: "root", Owner: o.key, Seq: o.nxt()}
-		op.Name = pick(w, "name", fileNames)
+		// rapid's integers lean towards small values; rotating by the
+		// step number spreads the opens over the files (a lock-owner or
+		// open-owner with state on several files needs that).
+		op.Name = fileNames[(rapid.IntRange(0, len(fileNames)-1).Draw(w.rt, "name")+w.stepNo)%len(fileNames)]
 		op.Access = uint32(pick(w, "access", []int{1, 2, 3, 3}))
 		op.How = pick(w, "how", []string{"nocreate", "unchecked", "unchecked", "unchecked", "unchecked", "unchecked", "unchecked_trunc", "unchecked_size3", "guarded", "guarded_size3", "exclusive"})
 		if w.prof.property == "C20" && w.pct(30, "sameFileOtherOwner") {
